@@ -291,6 +291,8 @@ structure Raw where
   delegated : Bool := false
   /-- `default_value_type` (0 until `set_default_value`) -/
   dvt : Nat := 0
+  /-- the `prefix_type` `_trait_delegate` kept (after its clamp to 0) -/
+  prefixType : Nat := 0
   deriving Repr
 
 inductive Outcome where
@@ -329,6 +331,20 @@ def probeDel (r : Raw) : Outcome :=
   else if r.fns.setattr = "setattr_trait" then .ok
   else if requiresProperty r.fns.setattr then .traitError    -- "Cannot delete the … property"
   else .unmodelled
+
+/-- The clamp of `_trait_delegate`: a `prefix_type` outside the guard becomes 0. -/
+def clampPrefixType (p : Int) : Nat := if admitted "_trait_delegate" "prefix_type" p then p.toNat else 0
+
+/-- `owner.x` and `owner.x = 7` for a delegate trait configured with
+`delegate("target", "x", prefix_type, True)` on an owner whose `target.x`
+exists: with the name rules 0 (same name), 1 (prefix) and 3 (class prefix,
+empty here) the delegated attribute is `x`; both succeed - provided
+`delegate_attr_name` is a function, which `C18_kind_in_bounds` guarantees for
+every value the guard lets through. -/
+def probeDelegated (r : Raw) : Outcome × Outcome :=
+  if r.fns.getattr = "getattr_delegate" ∧ r.fns.setattr = "setattr_delegate" ∧ r.delegated = true
+      ∧ r.fns.delegateAttrName ≠ NULL ∧ r.prefixType ≠ 2 then (.ok, .ok)
+  else (.unmodelled, .unmodelled)
 
 /-! ## Default value type (ctraits.c:3109-3153, 1840-1913) -/
 
